@@ -16,4 +16,9 @@ CLAIMS["C06"] = {
     "text": "Decides on every path of one update check: exactly one send site lies on a cycle and a concrete simulation of its attempt counter bounds the sends by 3; for each OmahaRequestError variant whether the loop can continue (never for Json/HttpBuilder/CupDecoration/CupValidation, only past the limit/is_user/poll-interval tests for HttpTransport, limit/poll-interval for HttpStatus); every retry passes one Timer::wait_for whose duration depends on the counter and on rand::*; only request_id(GUID::new()) changes between attempts; RequestsPerCheck/UpdateCheckResponseTime accounting sites.",
     "note": "The numeric law 2^(k-1) s +/- 500 ms is not decided. Trusts rustc's await lowering, futures combinators, and that HttpRequest/Timer are reached only through their trait items.",
 }
+CLAIMS["C02"] = {
+    "technique": "typestate (taint) dataflow over MIR for the unverified HTTP response, outcome-labelled edge reachability refined by a must-analysis of enum variants, field-writer census with guards",
+    "text": "Decides on every CFG path: the value returned by HttpRequest::request is only borrowed into verify_response until the Ok edge of verification (or the no-handler edge) is crossed; build() yields metadata iff a handler is configured; a verification failure converts to CupValidation, leaves the exchange with no effect, and from the CupValidation arm no request/wait/parse/installer/policy/server-response event is reachable; on Err(OmahaRequest) no app-set update or last-contact write, one failure counted; failed event reports only record OmahaEventLost; failed pings only count and persist.",
+    "note": "Replay resistance is reduced to nonce freshness (C03) plus the verifier (C01), not decided here. Trusts rustc's await/? lowering; infeasible CFG paths can only cause false alarms.",
+}
 NOT_APPLICABLE = {}
